@@ -38,6 +38,7 @@ fn prog(name: &str, setup: Vec<TOp>, threads: Vec<Vec<TOp>>) -> Arc<Prog> {
         fault_thread: None,
         final_directory: false,
         fault_budget: None,
+        fault_skip: 0,
         judge_under_fault: false,
     })
 }
@@ -64,6 +65,9 @@ pub fn c05_sharp() -> Vec<Arc<Prog>> {
         // of a plain leader's group and has to be woken as the next leader
         prog("put||put-sync||put", vec![], vec![vec![Put(0, 1, 8)], vec![Put(1, 2, SYNC_SIZE)], vec![Put(0, 3, 8)]]),
         prog("put-sync||put||put-sync+get", vec![Put(0, 1, 8)], vec![vec![Put(0, 2, SYNC_SIZE)], vec![Put(1, 3, 8)], vec![Put(1, 4, SYNC_SIZE), Get(0)]]),
+        // a follower whose batch is too large to join the group of the small write in front of it
+        // (a small leader's group may grow by 128 KiB only): it has to be left for the next round
+        prog_big("put||put||put-140k", vec![Put(0, 1, 8)], vec![vec![Put(0, 2, 8)], vec![Put(1, 3, 8)], vec![Put(0, 4, 140_000), Get(1)]]),
         // writers vs manual compaction
         prog("put||put||compact", vec![Put(0, 1, 8)], vec![vec![Put(0, 2, 8)], vec![Put(1, 3, 8)], vec![Compact(None, None)]]),
         // reader vs delete + flush
@@ -145,6 +149,7 @@ pub fn c06_programs() -> Vec<Arc<Prog>> {
             fault_thread: None,
             final_directory: false,
             fault_budget: None,
+            fault_skip: 0,
             judge_under_fault: false,
         })
     };
@@ -389,6 +394,7 @@ pub fn c03_programs() -> Vec<Arc<Prog>> {
             fault_thread: None,
             final_directory: false,
             fault_budget: None,
+            fault_skip: 0,
             judge_under_fault: false,
         })
     };
@@ -429,6 +435,7 @@ pub fn levels_programs() -> Vec<Arc<Prog>> {
             fault_thread: None,
             final_directory: true,
             fault_budget: None,
+            fault_skip: 0,
             judge_under_fault: false,
         })
     };
@@ -456,6 +463,7 @@ pub fn c09_programs() -> Vec<Arc<Prog>> {
             fault_thread: None,
             final_directory: false,
             fault_budget: None,
+            fault_skip: 0,
             judge_under_fault: false,
         })
     };
@@ -508,6 +516,7 @@ pub fn c11_removal_programs() -> Vec<Arc<Prog>> {
             fault_thread: None,
             final_directory: false,
             fault_budget: None,
+            fault_skip: 0,
             judge_under_fault: false,
         })
     };
@@ -545,6 +554,7 @@ pub fn c11_fault_programs() -> Vec<Arc<Prog>> {
             fault_thread: Some(0),
             final_directory: true,
             fault_budget: None,
+            fault_skip: 0,
             judge_under_fault: false,
         })
     };
@@ -594,11 +604,34 @@ pub fn c08_concurrent_programs() -> Vec<Arc<Prog>> {
             fault_thread,
             final_directory: false,
             fault_budget: budget,
+            fault_skip: 0,
             judge_under_fault: true,
         })
     };
     let p = |name: &str, setup: Vec<TOp>, threads: Vec<Vec<TOp>>, fault: (u32, &'static str), budget: Option<u32>| pt(name, setup, threads, fault, budget, None);
     let mut v = vec![];
+    // a table compaction is running while the writer rotates the memtable; the k-th manifest write
+    // after the setup fails once (the flush done inside the compaction loop, the compaction's own
+    // edit, ...); afterwards the database is reopened without the fault
+    // (both keys alternate in the level-0 files, so the compaction keeps several entries and its
+    // loop has filesystem calls — scheduling points — between its iterations)
+    let l0 = vec![Put(0, 1, 8), Flush, Put(1, 2, 8), Flush, Put(0, 3, 8), Flush, Put(1, 4, 8), Flush, Put(0, 5, 8), Flush, Put(1, 6, 8)];
+    for k in 0..4u32 {
+        let mut q = (*pt(
+            &format!("manifest-write-{}-fails-once: rotating w+w+w||compact", k),
+            l0.clone(),
+            vec![vec![Put(1, 7, 8), Put(0, 8, 8), Put(1, 9, 8)], vec![Compact(None, None)]],
+            (class::WRITE, ".manifest"),
+            Some(1),
+            None,
+        ))
+        .clone();
+        q.fault_skip = k;
+        // the compaction loop takes no lock between two entries: filesystem calls are its only
+        // scheduling points
+        q.fs_switch = true;
+        v.push(Arc::new(q));
+    }
     for (tag, budget) in [("once", Some(1u32)), ("sticky", None)] {
         let n = |s: &str| format!("{} {}", s, tag);
         v.push(p(&n("wal-write-fails: w||w||get+get"), vec![Put(0, 1, 8)], vec![vec![Put(0, 2, 8)], vec![Put(0, 3, 8)], vec![Get(0), Get(0)]], (class::WRITE, ".log"), budget));
@@ -665,6 +698,7 @@ pub fn c02_multiwriter_programs() -> Vec<Arc<Prog>> {
             fault_thread: None,
             final_directory: false,
             fault_budget: None,
+            fault_skip: 0,
             judge_under_fault: false,
         })
     };
@@ -672,6 +706,7 @@ pub fn c02_multiwriter_programs() -> Vec<Arc<Prog>> {
     vec![
         p("crash: w||w||w", big, vec![Put(0, 1, 8)], vec![vec![Put(0, 2, 8)], vec![Put(1, 3, 8)], vec![Put(0, 4, 8)]]),
         p("crash: w+w||w+w", big, vec![], vec![vec![Put(0, 1, 8), Put(1, 2, 8)], vec![Put(1, 3, 8), Put(0, 4, 8)]]),
+        p("crash: w||w||w-140k", big, vec![Put(0, 1, 8)], vec![vec![Put(0, 2, 8)], vec![Put(1, 3, 8)], vec![Put(1, 4, 140_000)]]),
         p("crash: batch||w||del", big, vec![Put(0, 1, 8)], vec![vec![Batch(vec![(0, Some(2)), (1, Some(2))])], vec![Put(1, 3, 8)], vec![Del(0)]]),
         p("crash: rotating w+w||w+w", rot_cfg(), vec![Put(0, 1, 8)], vec![vec![Put(1, 2, 8), Put(0, 3, 8)], vec![Put(1, 4, 8), Put(0, 5, 8)]]),
         p("crash: rotating w+w||batch||flush", rot_cfg(), vec![Put(0, 1, 8)], vec![vec![Put(1, 2, 8), Put(0, 3, 8)], vec![Batch(vec![(0, Some(4)), (1, Some(4))])], vec![Flush]]),
@@ -698,6 +733,7 @@ pub fn c09_fault_programs() -> Vec<Arc<Prog>> {
             fault_thread: None,
             final_directory: false,
             fault_budget: None,
+            fault_skip: 0,
             judge_under_fault: false,
         })
     };
